@@ -39,7 +39,7 @@ ANGLE_DESTS = ['my url', 'a(b', '/x y/z']
 TITLES = ['title', 'a title', "it's", 'say "hi"', 'one (two)', 'Ünï']
 AUTOLINKS = ['http://example.com/path', 'https://a.b/c?d=e&f=g', 'ftp://host/file.txt', 'mailto:someone@example.com']
 EMAILS = ['user@example.com', 'first.last@sub.example.org']
-ESCAPABLE = list('*_#[]\\<&`!(~')
+ESCAPABLE = list('!"#$%&\'()*+,-./:;<=>?@[\\]^_`{}~')     # every ASCII punctuation character except '|' (table cells)
 ENTITIES = [('&amp;', '&'), ('&lt;', '<'), ('&gt;', '>'), ('&copy;', '©'), ('&#35;', '#'), ('&#x41;', 'A'), ('&quot;', '"'), ('&auml;', 'ä'), ('&#169;', '©')]
 RAW_HTML = ['<span>', '</span>', '<br />', '<b class="x">', '</b>', '<!-- note -->', '<i data-x=\'1\'>', '<x-y z>']
 INFO = ['', '', 'python', 'sh', 'c++', 'js extra words', 'ruby startline=3']
